@@ -6,7 +6,9 @@
 mod anchor;
 mod eval;
 mod exec;
+mod fallback;
 mod hook;
+mod names;
 mod prims;
 mod replay;
 mod resolver;
@@ -39,6 +41,8 @@ fn main() {
         "anchor" => anchor::main(&opts),
         "replay" => replay::main(&opts),
         "one" => replay::one(&opts),
+        "names" => names::main(&opts),
+        "fallback" => fallback::main(&opts),
         _ => usage(),
     };
     match r {
